@@ -4,15 +4,15 @@
 cd /verif || exit 2
 [ -n "$(git -C /repo status --porcelain)" ] && { echo "/repo not clean"; exit 2; }
 EVBAK=$(mktemp -d /var/tmp/verif-evidence-XXXXXX); cp evidence/*.json $EVBAK/ 2>/dev/null
-trap 'git -C /repo checkout -q -- . 2>/dev/null; cp $EVBAK/*.json /verif/evidence/ 2>/dev/null; rm -rf $EVBAK' EXIT
+trap 'git -C /repo checkout -q -- . && git -C /repo clean -fdq 2>/dev/null; cp $EVBAK/*.json /verif/evidence/ 2>/dev/null; rm -rf $EVBAK' EXIT
 for id in "$@"; do
   prop=$(jq -r .property seeded/$id/meta.json)
   git -C /repo apply /verif/seeded/$id/patch.diff || continue
   out=$(./run $prop --tier quick 2>&1); c1=$?
   rp=$(echo "$out" | grep -m1 -o 'replay=[^ ]*' | cut -d= -f2)
-  if [ -z "$rp" ]; then echo "$id: no violation (exit $c1)"; git -C /repo checkout -q -- .; continue; fi
+  if [ -z "$rp" ]; then echo "$id: no violation (exit $c1)"; git -C /repo checkout -q -- . && git -C /repo clean -fdq; continue; fi
   r1=$(./run $prop --replay $rp 2>&1); c2=$?
-  git -C /repo checkout -q -- .
+  git -C /repo checkout -q -- . && git -C /repo clean -fdq
   r2=$(./run $prop --replay $rp 2>&1); c3=$?
   echo "$id: check exit=$c1 replay-with-change exit=$c2 replay-on-clean-tree exit=$c3  ($(echo "$r1" | grep -m1 REPRODUCED | cut -c1-120))"
 done
